@@ -551,9 +551,29 @@ enum Msg {
     Eof(u64),
 }
 
+/// CPU time (user + system) a process has used so far, in seconds. The watchdog measures CPU time,
+/// not wall-clock time, so that machine load can never turn a slow run into a reported hang: a run
+/// that does not terminate burns CPU (the library never blocks), a run that is merely starved does not.
+fn cpu_seconds(pid: u32) -> Option<f64> {
+    let txt = std::fs::read_to_string(format!("/proc/{}/stat", pid)).ok()?;
+    let rest = &txt[txt.rfind(')')? + 1..];
+    let f: Vec<&str> = rest.split_whitespace().collect();
+    let ut: u64 = f.get(11)?.parse().ok()?;
+    let st: u64 = f.get(12)?.parse().ok()?;
+    let hz = unsafe { libc::sysconf(libc::_SC_CLK_TCK) };
+    let hz = if hz > 0 { hz as f64 } else { 100.0 };
+    Some((ut + st) as f64 / hz)
+}
+
+/// Wall-clock silence after which a worker that is *not* using CPU is given up on (harness-level
+/// safety net only; nothing in the library or the harness sleeps or blocks).
+const WALL_SAFETY_S: u64 = 3600;
+
 struct Child {
     proc: std::process::Child,
     last: Instant,
+    /// CPU seconds the worker had used when its last message arrived
+    last_cpu: f64,
     cur_block: Option<u64>,
     done_blocks: u64,
     finished: bool,
@@ -593,7 +613,7 @@ fn spawn_worker(exe: &str, def: &CheckDef, tier: Tier, seed: u64, total: u64, w:
         }
         let _ = tx2.send(Msg::Eof(id));
     });
-    Child { proc: c, last: Instant::now(), cur_block: None, done_blocks: 0, finished: false, start_block: start }
+    Child { proc: c, last: Instant::now(), last_cpu: 0.0, cur_block: None, done_blocks: 0, finished: false, start_block: start }
 }
 
 /// Run block `b` one run at a time in a fresh process to find the run that crashes or hangs.
@@ -625,12 +645,18 @@ fn careful(exe: &str, def: &CheckDef, tier: Tier, seed: u64, total: u64, b: u64,
         let _ = tx.send(None);
     });
     let mut cur: Option<u64> = None;
-    let per_run = Duration::from_secs(60);
+    // per-run limit in CPU seconds of the child (see cpu_seconds)
+    let per_run: f64 = std::env::var("VERIF_RUN_CPU_S").ok().and_then(|s| s.parse().ok()).unwrap_or(60.0);
+    let pid = c.id();
+    let mut cpu_at_start = 0.0f64;
+    let mut wall_at_start = Instant::now();
     loop {
-        match rx.recv_timeout(per_run) {
+        match rx.recv_timeout(Duration::from_secs(1)) {
             Ok(Some(l)) => {
                 if let Some(r) = l.strip_prefix("S ") {
                     cur = r.trim().parse().ok();
+                    cpu_at_start = cpu_seconds(pid).unwrap_or(cpu_at_start);
+                    wall_at_start = Instant::now();
                 } else if l.trim() == "F" {
                     let _ = c.wait();
                     return None;
@@ -651,10 +677,18 @@ fn careful(exe: &str, def: &CheckDef, tier: Tier, seed: u64, total: u64, b: u64,
                 };
                 return cur.map(|i| (i, what));
             }
-            Err(_) => {
+            Err(mpsc::RecvTimeoutError::Timeout) => {
+                let used = cpu_seconds(pid).map(|c| c - cpu_at_start).unwrap_or(0.0);
+                if used > per_run || wall_at_start.elapsed() > Duration::from_secs(WALL_SAFETY_S) {
+                    let _ = c.kill();
+                    let _ = c.wait();
+                    return cur.map(|i| (i, format!("no return within {} s of CPU time (non-termination)", per_run as u64)));
+                }
+            }
+            Err(mpsc::RecvTimeoutError::Disconnected) => {
                 let _ = c.kill();
                 let _ = c.wait();
-                return cur.map(|i| (i, format!("no return within {} s (non-termination)", per_run.as_secs())));
+                return None;
             }
         }
     }
@@ -682,7 +716,8 @@ pub fn run_batch(def: &CheckDef, tier: Tier, seed: u64) -> BatchResult {
     for id in 0..w {
         kids.insert(id, spawn_worker(&exe, def, tier, seed, total, w, id, 0, &out, &tx));
     }
-    let silent_limit = Duration::from_secs(std::env::var("VERIF_WATCHDOG_S").ok().and_then(|s| s.parse().ok()).unwrap_or(120));
+    // a worker that has burnt this many CPU seconds since its last message is taken to hang
+    let silent_limit: f64 = std::env::var("VERIF_WATCHDOG_S").ok().and_then(|s| s.parse().ok()).unwrap_or(120.0);
     let mut crash_viols: Vec<J> = Vec::new();
     let mut harness_error: Option<String> = None;
     let mut live = w;
@@ -691,6 +726,7 @@ pub fn run_batch(def: &CheckDef, tier: Tier, seed: u64) -> BatchResult {
             Ok(Msg::Line(id, l)) => {
                 let k = kids.get_mut(&id).unwrap();
                 k.last = Instant::now();
+                k.last_cpu = cpu_seconds(k.proc.id()).unwrap_or(k.last_cpu);
                 if let Some(r) = l.strip_prefix("B ") {
                     k.cur_block = r.trim().parse().ok();
                 } else if l.starts_with("E ") {
@@ -750,7 +786,11 @@ pub fn run_batch(def: &CheckDef, tier: Tier, seed: u64) -> BatchResult {
             }
             Err(mpsc::RecvTimeoutError::Timeout) => {
                 for (_, k) in kids.iter_mut() {
-                    if !k.finished && k.last.elapsed() > silent_limit {
+                    if k.finished {
+                        continue;
+                    }
+                    let used = cpu_seconds(k.proc.id()).map(|c| c - k.last_cpu).unwrap_or(0.0);
+                    if used > silent_limit || k.last.elapsed() > Duration::from_secs(WALL_SAFETY_S) {
                         // hang: kill; the Eof handler will locate the run in careful mode
                         let _ = k.proc.kill();
                         k.last = Instant::now();
